@@ -178,7 +178,7 @@ type c07Op struct {
 }
 
 func runC07(run *common.Run) {
-	run.Rule = "case = one history of 3-6 HTTP client goroutines x 5-8 operations on 2 object names of one bucket (memory store and file store): unconditional uploads with unique content, uploads conditioned on non-existence or on a generation the client learned earlier, metageneration-conditioned patches each merging a unique value under the patching client's own metadata key (a patch must keep the other keys), conditioned deletes, compose into and copy onto the contended name from per-operation static sources, metadata GETs and media GETs; recorded at the HTTP client boundary with a logical clock, with bounded holds at the handlers' check-then-act yield points (*.afterCheck, copy.locked) and between the file store's two writes (fs.add.*). Oracle: porcupine per object against a sequential object model in which a generation is identified by the unique write that created it; plus monitors: one generation number never shows two contents and one write never shows two generations; among writers conditioned on the same state at most one succeeds (follows from the model, counted). Non-trivial = history with at least two overlapping operations on one object and at least one conditioned write that lost; distinct by history."
+	run.Rule = "case = one history of 3-6 HTTP client goroutines x 5-8 operations on 2 object names of one bucket (memory store and file store): unconditional uploads with unique content, uploads conditioned on non-existence or on a generation the client learned earlier, metageneration-conditioned patches each merging a unique value under the patching client's own metadata key (a patch must keep the other keys), conditioned deletes, compose into and copy onto the contended name from per-operation static sources (copy sources in the same or in a second bucket), metadata GETs and media GETs; recorded at the HTTP client boundary with a logical clock, with bounded holds at the handlers' check-then-act yield points (*.afterCheck, copy.locked) and between the file store's two writes (fs.add.*). Oracle: porcupine per object against a sequential object model in which a generation is identified by the unique write that created it; plus monitors: one generation number never shows two contents and one write never shows two generations; among writers conditioned on the same state at most one succeeds (follows from the model, counted). Non-trivial = history with at least two overlapping operations on one object and at least one conditioned write that lost; distinct by history."
 	run.Assumptions = []string{"porcupine v1.3.0", "an upload's own JSON response is used only to learn the generation when it reports the uploader's own MD5 (the handler reads it back after releasing the object lock)", "holds are bounded sleeps, never a verdict"}
 	var hits sync.Map
 	var holds, seq int64
@@ -229,8 +229,12 @@ func c07History(run *common.Run, idx int, store string) {
 		return
 	}
 	defer srv.Close()
-	const B = "b"
+	const B, B2 = "b", "srcbucket" // B2 only holds sources of cross-bucket copies
 	if rsp := srv.Client.CreateBucket(B); !rsp.OK() {
+		run.Violation("hist", idx, "CreateBucket failed: "+rsp.String(), nil)
+		return
+	}
+	if rsp := srv.Client.CreateBucket(B2); !rsp.OK() {
 		run.Violation("hist", idx, "CreateBucket failed: "+rsp.String(), nil)
 		return
 	}
@@ -254,6 +258,7 @@ func c07History(run *common.Run, idx int, store string) {
 		obj  int
 		in   c07In
 		srcs []string // compose/copy sources
+		srcB string   // bucket of the copy source (the contended bucket or a second one)
 	}
 	scripts := make([][]scripted, nclients)
 	nstatic := 0
@@ -275,7 +280,7 @@ func c07History(run *common.Run, idx int, store string) {
 			case x < 9:
 				a := fmt.Sprintf("static%d", nstatic)
 				nstatic++
-				sc = scripted{obj: obj, in: c07In{Kind: "WRITE", Id: id, Via: "copy"}, srcs: []string{a}}
+				sc = scripted{obj: obj, in: c07In{Kind: "WRITE", Id: id, Via: "copy"}, srcs: []string{a}, srcB: common.Pick(r, []string{B, B2})}
 				register(id, "src "+a+" for "+id+"|")
 			case x < 12:
 				sc = scripted{obj: obj, in: c07In{Kind: "PATCH", Id: "tag-" + id, Via: fmt.Sprintf("k%d", c%3), Cond: common.Pick(r, []string{"", "gen"}), CondM: int64(r.Intn(2))}} // CondM 1 = use the last metageneration learned; Via = the metadata key this client writes
@@ -297,7 +302,11 @@ func c07History(run *common.Run, idx int, store string) {
 		for _, sc := range scripts[c] {
 			for _, src := range sc.srcs {
 				body := "src " + src + " for " + sc.in.Id + "|"
-				if rsp := srv.Client.UploadMedia(B, src, "text/plain", []byte(body), false, nil); !rsp.OK() {
+				sb := B
+				if sc.srcB != "" {
+					sb = sc.srcB
+				}
+				if rsp := srv.Client.UploadMedia(sb, src, "text/plain", []byte(body), false, nil); !rsp.OK() {
 					run.Violation("hist", idx, "static source upload failed: "+rsp.String(), nil)
 					return
 				}
@@ -381,7 +390,10 @@ func c07History(run *common.Run, idx int, store string) {
 					rsp := cl.Compose(B, name, body, q)
 					out.Class = c07Class(rsp)
 				case in.Kind == "WRITE" && in.Via == "copy":
-					rsp := cl.Rewrite(B, sc.srcs[0], B, name)
+					rsp := cl.Rewrite(sc.srcB, sc.srcs[0], B, name)
+					if sc.srcB != B {
+						run.Count("cross_bucket_copies", 1)
+					}
 					out.Class = c07Class(rsp)
 				case in.Kind == "PATCH":
 					body, _ := json.Marshal(map[string]any{"metadata": map[string]string{in.Via: in.Id}})
